@@ -397,6 +397,54 @@ pub fn tier3(quick: bool) -> Vec<Program> {
     out
 }
 
+/// Tier T4: CLP(Z) equations over variables that carry finite domains, alone and next to an FD
+/// constraint, in every statement order: a value computed by plusz / timesz must respect the
+/// domain of the variable it is given to, whichever of the two was posted first.
+pub fn tier4(quick: bool) -> Vec<Program> {
+    let x = T::V(0);
+    let y = T::V(1);
+    let z = T::V(2);
+    let doms: Vec<Dom> = if quick { vec![Dom::Range(0, 3), Dom::Sparse(vec![0, 1, 3])] } else { vec![Dom::Range(0, 3), Dom::Range(-1, 2), Dom::Sparse(vec![0, 1, 3]), Dom::Sparse(vec![-2, 2])] };
+    let eqns: Vec<G> = vec![
+        G::PlusZ(x.clone(), y.clone(), z.clone()),
+        G::TimesZ(x.clone(), y.clone(), z.clone()),
+        G::PlusZ(x.clone(), T::I(1), z.clone()),
+        G::TimesZ(x.clone(), T::I(2), z.clone()),
+        G::PlusZ(x.clone(), x.clone(), z.clone()),
+        G::PlusZ(z.clone(), y.clone(), x.clone()),
+        G::TimesZ(z.clone(), z.clone(), x.clone()),
+    ];
+    let extras: Vec<Option<G>> = vec![
+        None,
+        Some(G::Fd(FdKind::Lt, vec![x.clone(), y.clone()])),
+        Some(G::Fd(FdKind::Diseq, vec![x.clone(), z.clone()])),
+        Some(G::DistinctFd(T::list(vec![x.clone(), y.clone(), z.clone()]))),
+        Some(G::Eq(y.clone(), T::I(1))),
+        Some(G::Fd(FdKind::Lte, vec![z.clone(), y.clone()])),
+        Some(G::Fd(FdKind::Plus, vec![x.clone(), y.clone(), T::I(3)])),
+    ];
+    let mut out = vec![];
+    for d in &doms {
+        for d2 in &doms {
+            for e in &eqns {
+                for ex in &extras {
+                    let mut stmts = vec![G::InFd(vec![x.clone(), y.clone()], d.clone()), G::InFd(vec![z.clone()], d2.clone()), e.clone()];
+                    if let Some(g) = ex {
+                        stmts.push(g.clone());
+                    }
+                    for (pi, perm) in permutations(&stmts).into_iter().enumerate() {
+                        if quick && stmts.len() == 4 && pi % 3 != 0 {
+                            continue;
+                        }
+                        out.push(Program { nq: 3, body: perm });
+                    }
+                }
+            }
+        }
+    }
+    out
+}
+
 /// Expected multiset of query tuples (canonical), or None if the program is outside the
 /// well-formed fragment (an FD operand never given a domain).
 pub fn expected(p: &Program) -> Option<Vec<Vec<T>>> {
